@@ -194,7 +194,7 @@ def _point_witness(ctx: Ctx, fn: FunctionInfo, integer: bool):
     return None
 
 
-def check_bounded(ctx: Ctx, rule: str, fn: FunctionInfo, integer: bool, cls=None) -> None:
+def check_bounded(ctx: Ctx, rule: str, fn: FunctionInfo, integer: bool, cls=None, script: Optional[dict] = None) -> None:
     """result of fn(min, max) lies in [min, max] for all min <= max.  A method of an abstract class that calls an abstract hook
     (template method) is analysed once per concrete subclass that inherits it, with the hook of that subclass inlined."""
     params = [p for p in fn.params if p != "self"]
@@ -227,7 +227,17 @@ def check_bounded(ctx: Ctx, rule: str, fn: FunctionInfo, integer: bool, cls=None
             return env_.facts.fresh("somefloat", exact=False, integer=False)
         return None
     env.hooks.append(typed_call)
+    env.choices = {"script": dict(script or {}), "log": {}}
     outs = interp(fn.node.body, env)
+    new_sites = sorted(k_ for k_ in env.choices["log"] if k_ not in (script or {}))
+    if new_sites:
+        # a helper with several returning paths (an if-expression on a draw, ...): one analysis per combination of paths, each exact
+        import itertools
+        combos = list(itertools.product(*[range(env.choices["log"][k_]) for k_ in new_sites]))
+        if len(combos) * max(1, len(script or {})) <= 32:
+            for combo in combos:
+                check_bounded(ctx, rule, fn, integer, cls=cls, script={**(script or {}), **dict(zip(new_sites, combo))})
+            return
     if cls is None and fn.cls is not None:
         from ..frontend import is_stub
         hooks_ = {o.value.why[5:].strip() for o in outs if o.kind == "return" and isinstance(o.value, Opaque) and o.value.why.startswith("call ")}
@@ -240,6 +250,8 @@ def check_bounded(ctx: Ctx, rule: str, fn: FunctionInfo, integer: bool, cls=None
                     check_bounded(ctx, rule, fn, integer, cls=c)
                 return
     tag = f" [{cls.name}]" if cls is not None else ""
+    if script:
+        tag += " [helper paths " + ", ".join(f"{k_[0]} #{v_ + 1}" for k_, v_ in sorted(script.items())) + "]"
     if not outs:
         ctx.ob(rule, fn, fn.node, "bounded draw", None, "no path")
     for o in outs:
